@@ -102,6 +102,23 @@ def c05() -> int:
     return c.finish()
 
 
+def c06() -> int:
+    from .enum_journeys import c06_enum
+
+    c = Check("C06", "bounded exhaustive enumeration of whole journeys (position pairs x step lengths x target kinds) judged step by step from the stored routes (ENUM) + the same per-step oracle as an FSX monitor")
+    c06_enum(c)
+    quick = tier() == "quick"
+    fsx(c, RES + ({"variant": "core"},), ("hivemc.bundles", "c06", {}), K=2 if quick else 3, H=7 if quick else 9,
+        needs=["c06:judged:DispatchStation", "c06:judged:DispatchBase", "c06:judged:Repositioning", "c06:judged:ServicingTrip", "c06:mid_link_split"])
+    fsx(c, REQ + ({},), ("hivemc.bundles", "c06", {}), K=3 if quick else 4, H=8 if quick else 10, needs=["c06:judged:DispatchTrip", "c06:judged:ServicingTrip"])
+    # arrivals with a full battery / tank (small-battery v0 starts full)
+    fsx(c, RES + ({"variant": "core", "mechs": ("small", "small", "quiet"), "v0_energy": 1.0, "name": "W-res/full"},), ("hivemc.bundles", "c06", {}), K=2, H=6 if quick else 8,
+        needs=["default:DispatchStation>Idle|default:DispatchStation>ChargingStation"])
+    c.assumptions += ["speeds >= 10 km/h; links never declared shorter than the straight line; H3 resolution 15",
+                      "journeys use a half-charged vehicle (the full-battery arrival is exercised in the FSX worlds)"]
+    return c.finish()
+
+
 def c08() -> int:
     from .enum_index import c08_enum
 
@@ -267,4 +284,4 @@ def c20() -> int:
     return run()
 
 
-CHECKS = {"C10": c10, "C09": c09, "C16": c16, "C18": c18, "C19": c19, "C05": c05, "C15": c15, "C01": c01, "C20": c20, "C08": c08, "C12": c12, "C11": c11, "C04": c04, "C13": c13, "C14": c14, "C17": c17, "C02": c02, "C03": c03, "C07": c07}
+CHECKS = {"C06": c06, "C10": c10, "C09": c09, "C16": c16, "C18": c18, "C19": c19, "C05": c05, "C15": c15, "C01": c01, "C20": c20, "C08": c08, "C12": c12, "C11": c11, "C04": c04, "C13": c13, "C14": c14, "C17": c17, "C02": c02, "C03": c03, "C07": c07}
